@@ -13,6 +13,7 @@ import (
 	"io"
 	"regexp"
 	"runtime"
+	"sort"
 	"strconv"
 	"strings"
 	"sync"
@@ -285,7 +286,9 @@ func (s *ScriptChooser) Choose(p []*Parked) int {
 	return 0
 }
 
-func (e Event) String() string { return fmt.Sprintf("%s#%d g%d %s %q", e.Kind, e.ID, e.G, e.Stream, e.Data) }
+func (e Event) String() string {
+	return fmt.Sprintf("%s#%d g%d %s %q", e.Kind, e.ID, e.G, e.Stream, e.Data)
+}
 
 // StarveChooser is a random chooser that keeps one randomly picked goroutine parked for as
 // long as anything else can be released: long windows in which one task is stuck mid-command
@@ -316,4 +319,50 @@ func (s *StarveChooser) Choose(p []*Parked) int {
 		}
 	}
 	return s.R.Intn(len(p))
+}
+
+// IndexChooser follows a prefix of choice indices over the parked writes taken in canonical
+// (label, arrival id) order and picks index 0 beyond the prefix. It records the index taken and
+// the number of alternatives at every step, which is what a depth-first enumeration of the
+// controlled schedules needs (NextPrefix).
+type IndexChooser struct {
+	Prefix []int
+	Taken  []int
+	Width  []int
+}
+
+func (s *IndexChooser) Choose(p []*Parked) int {
+	idx := make([]int, len(p))
+	for i := range idx {
+		idx[i] = i
+	}
+	sort.Slice(idx, func(a, b int) bool {
+		la, lb := Label(p[idx[a]]), Label(p[idx[b]])
+		if la != lb {
+			return la < lb
+		}
+		return p[idx[a]].ID < p[idx[b]].ID
+	})
+	c := 0
+	if k := len(s.Taken); k < len(s.Prefix) {
+		c = s.Prefix[k]
+	}
+	if c >= len(p) {
+		c = len(p) - 1
+	}
+	s.Taken = append(s.Taken, c)
+	s.Width = append(s.Width, len(p))
+	return idx[c]
+}
+
+// NextPrefix gives the prefix of the next schedule in depth-first order, or nil when the tree
+// below the recorded run is exhausted.
+func NextPrefix(taken, width []int) []int {
+	for i := len(taken) - 1; i >= 0; i-- {
+		if taken[i]+1 < width[i] {
+			out := append([]int{}, taken[:i]...)
+			return append(out, taken[i]+1)
+		}
+	}
+	return nil
 }
